@@ -236,6 +236,26 @@ def type_shape(x, d=0):
     return type(x).__name__ + '[' + ','.join(sorted({type_shape(c, d + 1) for c in cs})) + ']'
 
 
+def full_shape(x, budget):
+    """Type structure at full depth (no depth cap; bounded by a node budget)."""
+    budget[0] -= 1
+    if budget[0] < 0:
+        raise OverflowError
+    cs = children(x)
+    if not cs:
+        return type(x).__name__
+    return type(x).__name__ + '[' + ','.join(sorted({full_shape(c, budget) for c in cs})) + ']'
+
+
+def deep_homogeneous(x):
+    """Every container, at every depth, holds items of one single type structure."""
+    try:
+        s = full_shape(x, [4000])
+    except (OverflowError, RecursionError):
+        return False
+    return '|' not in s and ',' not in s
+
+
 def is_hint_like(x):
     return isinstance(x, type) or x is None or type(x).__module__ == 'typing' or isinstance(x, types.GenericAlias)
 
@@ -297,21 +317,26 @@ def main():
             return None
         # smallest descendant that fails on its own (sampling may hide a bad item of a
         # long sequence from its parents, so every descendant is tried, leaves first)
-        desc, frontier, seen_ids = [], [x], set()
-        while frontier and len(desc) < 3000:
-            nxt_frontier = []
-            for o in frontier:
-                for c in children(o):
-                    if id(c) not in seen_ids:
-                        seen_ids.add(id(c))
-                        desc.append(c)
-                        nxt_frontier.append(c)
-            frontier = nxt_frontier
-        for c in sorted(desc, key=lambda o: len(children(o))):
-            r2 = attempt(c)
-            if r2 is not None:
-                cur, cres = c, r2
+        for _round in range(6):
+            desc, frontier, seen_ids = [], [cur], set()
+            while frontier and len(desc) < 4000:
+                nxt_frontier = []
+                for o in frontier:
+                    for c in children(o):
+                        if id(c) not in seen_ids:
+                            seen_ids.add(id(c))
+                            desc.append(c)
+                            nxt_frontier.append(c)
+                frontier = nxt_frontier
+            found = None
+            for c in sorted(desc, key=lambda o: len(children(o))):
+                r2 = attempt(c)
+                if r2 is not None:
+                    found = (c, r2)
+                    break
+            if found is None:
                 break
+            cur, cres = found
         for _ in range(60):
             step = None
             for c in children(cur):
@@ -433,7 +458,7 @@ def main():
             W.sample(dict(obj=short(x, 160), shape=short(shape, 120)))
         decide('rand', idx, x, None, rng, 'default')
         # explicit O1: decided only when every container level is homogeneous
-        if '|' not in shape and ',' not in shape and rng.random() < .4:
+        if '|' not in shape and ',' not in shape and rng.random() < .4 and deep_homogeneous(x):
             W.count('o1_homogeneous_roundtrips')
             decide('rand', idx, x, conf_o1, rng, 'O1')
 
